@@ -146,7 +146,7 @@ func (c c20Case) input() string {
 	return c.Prefix + c.Word
 }
 
-var c20Separators = []string{" ", "-", ".", "/", ":", ",", "(", "'", "\"", "\n", "\t", "+", "~", "!", "  ", " - ", "\r\n", "=", "&"}
+var c20Separators = []string{" ", "-", ".", "/", ":", ",", "(", "'", "\"", "\n", "\t", "+", "~", "!", "  ", " - ", "\r\n", "=", "&", "\u00a0", "—", "–", "\u3000", "·", "\u2009"}
 
 var c20FreeAlphabet = []string{
 	"a", "e", "s", "x", "y", "f", "fe", "us", "is", "ies", "es", "man", "men", "ox", "person", "people", "child", "fish", "sheep", "media",
@@ -204,6 +204,14 @@ func genC20(t *rapid.T) c20Case {
 	}
 	// the prefix may contain the spelling of the final word again (alone, inside a longer word, in the other number)
 	again := func(c c20Case) c20Case {
+		// inputs whose length sits around a power of two (fixed-size buffers: 16, 32, 64, 128, 256 bytes)
+		if rapid.IntRange(0, 5).Draw(t, "padded") == 0 {
+			total := rapid.SampledFrom([]int{16, 32, 64, 128, 256}).Draw(t, "around") + rapid.IntRange(-4, 2).Draw(t, "off")
+			if k := total - len(c.Word) - 1; k >= 0 {
+				c.Prefix = strings.Repeat("x", k) + rapid.SampledFrom([]string{" ", "-"}).Draw(t, "padsep")
+			}
+			return c
+		}
 		if rapid.IntRange(0, 3).Draw(t, "wordagain") == 0 {
 			c.Prefix = rapid.SampledFrom([]string{c.Word + " ", c.Word + " and ", c.Word + "ford ", "the " + c.Word + "-", c.Prefix + c.Word + " "}).Draw(t, "againshape")
 		}
@@ -570,13 +578,13 @@ func TestC20(t *testing.T) {
 		ID:    "C20",
 		Level: "exploration",
 		Rule: "words sub: every irregular word of either rule and every plain uninflected word (lists parsed from the repository source at run time), " +
-			"in lower/upper/title/mixed case, alone or after an arbitrary prefix (ASCII, non-ASCII, newlines) that ends in a non-word ASCII separator, plus " +
+			"in lower/upper/title/mixed case, alone or after an arbitrary prefix (ASCII, non-ASCII, newlines) that ends in a separator (ASCII punctuation/space, or U+00A0, U+2009, U+3000, em/en dash, middle dot), with lengths around 16..256 bytes, plus " +
 			"free strings over an alphabet with the case-fold aliases U+017F and U+212A; oracle: no panic, f(s)==f(s), f(prefix+word)==prefix+f(word) for the " +
 			"rule the word is irregular in. concurrent sub: 2-32 goroutines call both functions on a shared list of up to 24 cold keys in a fresh child " +
 			"process built with -race; every observed result must equal the sequential one and the race detector must stay silent. non-trivial = irregular " +
 			"word with a non-empty prefix | free string with a fold alias | concurrent scenario with >=8 goroutines on >=4 keys; distinct by JSON encoding",
 		Assumptions: []string{
-			"word boundary = the prefix ends in a non-word ASCII character (the statement's 'space, hyphen, ...'); prefixes ending in '_' or a letter are not asserted",
+			"word boundary = the prefix ends in a non-word ASCII character or a Unicode space/dash/middle dot (the statement's 'space, hyphen, ...'); prefixes ending in '_' or a letter are not asserted",
 			"interleavings are sampled, the race detector only judges executions that happened",
 		},
 	})
@@ -607,7 +615,7 @@ func TestC20(t *testing.T) {
 	lists, _ := loadC20Lists()
 	if r.Shard == 0 {
 		ev.Enumerate(r, "all-words", func(yield func(c20Case) bool) {
-			for _, pre := range []string{"", "old-", "Old ", "é ", "a\nold ", "x.y/"} {
+			for _, pre := range []string{"", "old-", "Old ", "é ", "a\nold ", "x.y/", "a\u00a0", "b—", strings.Repeat("x", 58) + " ", strings.Repeat("y", 60) + "-"} {
 				for _, kw := range []struct {
 					kind string
 					ws   []string
